@@ -65,6 +65,17 @@ async fn http_append_and_cas_are_byte_exact() {
     }
     let resp = raw_pieces(&sock, vec![b"POST /cas HTTP/1.1\r\nhost: x\r\ncontent-length: 0\r\n\r\n".to_vec()], 800).await;
     assert!(resp.starts_with(b"HTTP/1.1 400"), "C10: empty POST /cas must be rejected");
+    // content is shared by everything that has the same bytes: removing or evicting one frame must not take the content of another away
+    let shared = b"same bytes in two frames".to_vec();
+    let h1 = store.cas_insert_sync(&shared).unwrap();
+    let a = store.append(Frame::builder("dup.a", ZERO_CONTEXT).hash(h1.clone()).build()).unwrap();
+    let b = store.append(Frame::builder("dup.b", ZERO_CONTEXT).hash(store.cas_insert_sync(&shared).unwrap()).build()).unwrap();
+    store.remove(&a.id).unwrap();
+    assert_eq!(store.cas_read(b.hash.as_ref().unwrap()).await.expect("C10: content of an observable frame after ANOTHER frame with the same bytes was removed"), shared);
+    let _old = store.append(Frame::builder("dup.state", ZERO_CONTEXT).hash(store.cas_insert_sync(&shared).unwrap()).ttl(xs::store::TTL::Head(1)).build()).unwrap();
+    let _new = store.append(Frame::builder("dup.state", ZERO_CONTEXT).hash(store.cas_insert_sync(b"newer").unwrap()).ttl(xs::store::TTL::Head(1)).build()).unwrap();
+    store.wait_for_gc().await;
+    assert_eq!(store.cas_read(b.hash.as_ref().unwrap()).await.expect("C10: content of an observable frame after a frame with the same bytes was evicted"), shared);
     // the same with chunked transfer encoding (what `xs append` and the client library send): an empty chunked body is still "no body";
     // chunks of any size are stored byte for byte
     let resp = raw_pieces(&sock, vec![b"POST /chunked0 HTTP/1.1\r\nhost: x\r\ntransfer-encoding: chunked\r\n\r\n".to_vec(), b"0\r\n\r\n".to_vec()], 1500).await;
